@@ -63,6 +63,8 @@ type c13Variant struct {
 	// wtRef: a per-worktree reference (refs/worktree/only) created in the linked
 	// worktree; only runs addressed through that worktree see it
 	wtRef mrepo.ID
+	// config: text appended to the repository's configuration file
+	config string
 }
 
 func c13Variants(b c13Base, tier string) []c13Variant {
@@ -112,6 +114,12 @@ func c13Variants(b c13Base, tier string) []c13Variant {
 				vs = append(vs, c13Variant{name: "replace " + rp[0] + " + GIT_GRAFT_FILE in environment: " + k, replace: [][2]mrepo.ID{{id[rp[1]], id[rp[2]]}}, envGraf: []string{graftLines[k]}})
 			}
 		}
+	}
+	// replacement switched on explicitly in the repository's own configuration
+	// (git lets core.useReplaceRefs=true override --no-replace-objects)
+	for _, rp := range [][3]string{{"commit other parents+tree", "c1", "orphan"}, {"blob bigger", "blobB", "bigBlob"}, {"tree bigger", "t1", "bigTree"}} {
+		vs = append(vs, c13Variant{name: "replace " + rp[0] + " + core.useReplaceRefs=true in the repository configuration", replace: [][2]mrepo.ID{{id[rp[1]], id[rp[2]]}},
+			config: "[core]\n\tuseReplaceRefs = true\n"})
 	}
 	vs = append(vs, c13Variant{name: "shallow", shallow: id["c1"]})
 	vs = append(vs, c13Variant{name: "per-worktree reference in the linked worktree", wtRef: id["orphan"]})
@@ -280,6 +288,10 @@ func c13Case(sh *explore.Shard, bi int, b c13Base, v c13Variant, modes []c13Mode
 	if v.shallow != "" {
 		os.WriteFile(filepath.Join(gd, "shallow"), []byte(string(v.shallow)+"\n"), 0o644)
 	}
+	if v.config != "" {
+		c0, _ := os.ReadFile(filepath.Join(gd, "config"))
+		os.WriteFile(filepath.Join(gd, "config"), append(c0, []byte(v.config)...), 0o644)
+	}
 	bare := filepath.Join(dir, "bare.git")
 	if out, err := exec.Command("cp", "-r", gd, bare).CombinedOutput(); err != nil {
 		herr("cp: " + string(out))
@@ -398,6 +410,6 @@ func c13Case(sh *explore.Shard, bi int, b c13Base, v c13Variant, modes []c13Mode
 
 func init() {
 	Registry["C13"] = &Check{Level: "exploration", Worker: c13Worker, QuickBudget: 80 * time.Second, ThoroughBudget: 10 * time.Minute,
-		Rule:        "real binary + real git: 2 base repositories x {plain; every single replacement of a commit, tip commit, tree, subtree, blob, tag by an otherwise unreachable bigger/other object and by an object that is reachable in its own right, with and without GIT_NO_REPLACE_OBJECTS in the caller's environment; every single graft (add a parent, drop all parents, redirect, give the root a parent) in .git/info/grafts and in a file named by GIT_GRAFT_FILE in the caller's environment; a shallow marker; a per-worktree reference (refs/worktree/only) in the linked worktree, which only runs addressed through that worktree must see; thorough additionally replaces every reachable object in turn, grafts every commit in turn, and combines every replacement with every graft} x 9 addressing modes of a repository whose path contains a blank (top, subdirectory, inside .git, bare copy, linked worktree, GIT_DIR absolute from the top of another repository's work tree, GIT_DIR relative, git -C <dir> sizer, git --git-dir=<d> sizer) x {JSON, verbose table}: stdout byte-identical across modes; numbers equal the oracle on the objects actually stored (refs/replace/* counting as ordinary references); shallow refused cleanly in every mode; plus, through fakegit's log, every git command of a run carries --no-replace-objects, GIT_GRAFT_FILE=/dev/null and the resolved GIT_DIR even when the caller's environment sets other values. non-trivial = every variant",
+		Rule:        "real binary + real git: 2 base repositories x {plain; every single replacement of a commit, tip commit, tree, subtree, blob, tag by an otherwise unreachable bigger/other object and by an object that is reachable in its own right, with and without GIT_NO_REPLACE_OBJECTS in the caller's environment, and with core.useReplaceRefs=true in the repository's configuration; every single graft (add a parent, drop all parents, redirect, give the root a parent) in .git/info/grafts and in a file named by GIT_GRAFT_FILE in the caller's environment; a shallow marker; a per-worktree reference (refs/worktree/only) in the linked worktree, which only runs addressed through that worktree must see; thorough additionally replaces every reachable object in turn, grafts every commit in turn, and combines every replacement with every graft} x 9 addressing modes of a repository whose path contains a blank (top, subdirectory, inside .git, bare copy, linked worktree, GIT_DIR absolute from the top of another repository's work tree, GIT_DIR relative, git -C <dir> sizer, git --git-dir=<d> sizer) x {JSON, verbose table}: stdout byte-identical across modes; numbers equal the oracle on the objects actually stored (refs/replace/* counting as ordinary references); shallow refused cleanly in every mode; plus, through fakegit's log, every git command of a run carries --no-replace-objects, GIT_GRAFT_FILE=/dev/null and the resolved GIT_DIR even when the caller's environment sets other values. non-trivial = every variant",
 		Assumptions: []string{"git 2.39.5; the linked worktree is created with git worktree add (detached at the root commit)"}}
 }
